@@ -1324,6 +1324,25 @@ pub fn gen_pristine(r: &mut Rng, profile: Profile, root: &str, cycle: bool) -> G
             }
         })
         .collect();
+    // rarely two files whose paths differ only in letter case (distinct files on the simulated,
+    // case-sensitive file system)
+    for i in 1..nfiles {
+        if r.chance(1, 16) {
+            let prev = files[i - 1].name.clone();
+            let (dir, base) = match prev.rfind('/') {
+                Some(k) => (&prev[..=k], &prev[k + 1..]),
+                None => ("", prev.as_str()),
+            };
+            let mut cs = base.chars();
+            if let Some(c) = cs.next() {
+                let up: String = c.to_uppercase().collect();
+                let variant = format!("{}{}{}", dir, up, cs.as_str());
+                if variant != prev && !files.iter().any(|f| f.name == variant) {
+                    files[i].name = variant;
+                }
+            }
+        }
+    }
     // depth of logical file in the include chain, so that nesting stays <= 3
     let mut level = vec![1usize; nfiles];
     for i in 0..nfiles {
@@ -1616,7 +1635,29 @@ fn static_damage(r: &mut Rng, g: &mut Generated, profile: Profile) -> Option<&'s
         }
         Err(_) => Default::default(),
     };
-    let confirmed = |l: &Lexeme| token_spans.contains(&(l.start, l.end));
+    // For string literals the record is also accepted when a string token *starts* at the record's
+    // start: the generator writes well-formed strings, so a lexer that ends the token earlier (at
+    // an escaped quote, say) is wrong about the lexeme, not the record.
+    let str_token_starts: std::collections::BTreeSet<usize> = match std::str::from_utf8(&bytes) {
+        Ok(t) => {
+            let mut v = std::collections::BTreeSet::new();
+            let mut pos = 0usize;
+            for tok in oq3_lexer::tokenize(t) {
+                if matches!(
+                    tok.kind,
+                    oq3_lexer::TokenKind::Literal { kind: oq3_lexer::LiteralKind::Str { .. }, .. }
+                ) {
+                    v.insert(pos);
+                }
+                pos += tok.len as usize;
+            }
+            v
+        }
+        Err(_) => Default::default(),
+    };
+    let confirmed = |l: &Lexeme| {
+        token_spans.contains(&(l.start, l.end)) || (l.class == "string" && str_token_starts.contains(&l.start))
+    };
     let g3_for = |p: usize| -> Option<(String, usize)> {
         for l in &lex {
             if l.tear_is_diagnosable(p) && confirmed(l) {
@@ -1654,6 +1695,19 @@ fn static_damage(r: &mut Rng, g: &mut Generated, profile: Profile) -> Option<&'s
                     }
                     "block_comment" => l.start + 2 + r.below(l.end - l.start - 2),
                     "version" => l.start + 9 + r.below((l.end - l.start).saturating_sub(9).max(1)),
+                    "string" => {
+                        // half of the time right after an escaped quote character, if there is one
+                        // (the kept text then ends in `\'` or `\"`, which does not close the string)
+                        let after_escaped_quote: Vec<usize> = (l.start + 3..l.end)
+                            .filter(|p| bytes[p - 2] == b'\\' && (bytes[p - 1] == b'\'' || bytes[p - 1] == b'"'))
+                            .filter(|p| *p < 3 + l.start || bytes[p - 3] != b'\\')
+                            .collect();
+                        if !after_escaped_quote.is_empty() && r.chance(1, 2) {
+                            *r.pick(&after_escaped_quote)
+                        } else {
+                            l.start + 1 + r.below(l.end - l.start - 1)
+                        }
+                    }
                     _ => l.start + 1 + r.below(l.end - l.start - 1),
                 }
             } else {
